@@ -7,10 +7,13 @@ CONSTANTS
   ChunkSizes <- MCOne
   NetMayFail = FALSE
   MayLeaveLitter = FALSE
+  CloseDelimited = TRUE
   WriteInPlace = FALSE
   PersistBeforeStatusCheck = FALSE
   TruncatedIsSuccess = FALSE
+  SkipValidation = FALSE
+  FixedTempName = FALSE
   NoStaleFallback = FALSE
   AbortOnRefreshError = FALSE
-INVARIANTS TypeOK Atomic FailKeeps ChangeOnlyOnSuccess SuccessVisible StartsAnyway FallsBack NoStuck EmitCase
+INVARIANTS TypeOK Atomic FailKeeps ChangeOnlyOnSuccess SuccessVisible SuccessIsComplete Recovers StartsAnyway FallsBack NoStuck EmitCase
 CHECK_DEADLOCK FALSE
